@@ -583,6 +583,29 @@ func init() {
 		o.native = re
 		return TupleV{Pointer{obj: st.alloc(o), off: BV(64, 0)}, Iface{}}
 	}
+	// eapache/channels.InfiniteChannel (a goroutine pumping between two channels in the real library):
+	// one unbounded queue; In() and Out() are the same queue
+	models["github.com/eapache/channels.NewInfiniteChannel"] = func(e *Engine, st *State, args []Value, call *ssa.Call, pos token.Pos) Value {
+		return Pointer{obj: st.alloc(&Object{typ: call.Type(), isChan: true, chanCap: 1 << 30}), off: BV(64, 0)}
+	}
+	for _, n := range []string{"In", "Out"} {
+		models["(*github.com/eapache/channels.InfiniteChannel)."+n] = func(e *Engine, st *State, args []Value, call *ssa.Call, pos token.Pos) Value {
+			return args[0]
+		}
+	}
+	models["(*github.com/eapache/channels.InfiniteChannel).Len"] = func(e *Engine, st *State, args []Value, call *ssa.Call, pos token.Pos) Value {
+		p := args[0].(Pointer)
+		if p.obj == 0 {
+			return BV(64, 0)
+		}
+		return BV(64, uint64(len(st.obj(p.obj).vals)))
+	}
+	models["(*github.com/eapache/channels.InfiniteChannel).Close"] = func(e *Engine, st *State, args []Value, call *ssa.Call, pos token.Pos) Value {
+		if p := args[0].(Pointer); p.obj != 0 {
+			st.wobj(p.obj).chanClosed = true
+		}
+		return TupleV{}
+	}
 	models["os.Hostname"] = func(e *Engine, st *State, args []Value, call *ssa.Call, pos token.Pos) Value {
 		return TupleV{StringV{conc: "verifhost"}, Iface{}}
 	}
